@@ -20,6 +20,19 @@ import (
 
 var Versions = []string{"0.13.2", "0.13.4", "0.14.0", "0.14.1"}
 
+// LegacyVersions use the block hash family of before 0.13.2 (Pedersen hash over number, state
+// root, sequencer address, timestamp, transaction count and commitment, event count and
+// commitment, parent hash): gas prices, DA mode, the version string, receipt fields other than
+// events and the state diff itself are NOT committed by that hash. Only harnesses that know this
+// (C02's tampering catalogue) opt in through AllVersions.
+var LegacyVersions = []string{"0.12.3", "0.13.1"}
+
+// AllVersions is LegacyVersions followed by Versions (versions never decrease along a chain).
+var AllVersions = append(append([]string(nil), LegacyVersions...), Versions...)
+
+// IsLegacy reports whether v hashes blocks with the pre-0.13.2 family.
+func IsLegacy(v string) bool { return v < "0.13.2" }
+
 type Block struct {
 	B       *core.Block
 	SU      *core.StateUpdate
@@ -235,7 +248,7 @@ func (g *Gen) Next(t *tape.Tape, parent *Block, o Opts) *Block {
 		ParentHash:       &parentHash,
 		Number:           num,
 		GlobalStateRoot:  &root,
-		SequencerAddress: fp(0x5e9 + o.Salt%3),
+		SequencerAddress: g.sequencerAddress(t, o),
 		TransactionCount: uint64(len(txs)),
 		EventCount:       evCount,
 		Timestamp:        ts + 1 + uint64(t.Draw("ts", 40)),
@@ -256,6 +269,23 @@ func (g *Gen) Next(t *tape.Tape, parent *Block, o Opts) *Block {
 	h.Hash = &hash
 	su := &core.StateUpdate{BlockHash: &hash, NewRoot: &root, OldRoot: &oldRoot, StateDiff: diff}
 	return &Block{B: b, SU: su, Classes: classes, Pre: pre, Post: post, Version: o.Version, Salt: o.Salt}
+}
+
+// sequencerAddress: blocks of the legacy hash family are sometimes sequenced by the zero address or
+// by the network's fallback address (as long stretches of the real networks were): these are the
+// values a verifier falls back to when a block carries no address at all.
+func (g *Gen) sequencerAddress(t *tape.Tape, o Opts) *felt.Felt {
+	if IsLegacy(o.Version) {
+		switch t.Draw("seq.addr", 4) {
+		case 1:
+			return new(felt.Felt)
+		case 2:
+			if fb := g.Net.BlockHashMetaInfo.FallBackSequencerAddress; fb != nil {
+				return new(*fb)
+			}
+		}
+	}
+	return fp(0x5e9 + o.Salt%3)
 }
 
 func (g *Gen) genDiff(t *tape.Tape, pre *refstate.State, d *core.StateDiff, classes map[felt.Felt]core.ClassDefinition, o Opts, num uint64, isV2 bool) {
